@@ -723,7 +723,10 @@ func randPrefixTextC14(rng *rand.Rand) string {
 // the line separators encoding/json escapes, and a few things url.Parse treats
 // specially.
 var urlSpecialsC14 = []string{"&", "<", ">", "\"", "\\", "é", "\u2028", "\u2029", "'", " ", "+", ";", "=", "%41", "%2f", "%26", "%3C", "@", ":", "~",
-	"\u00a0", "日本", "\U0001F600", "\ufffd", "\\u0026", "\\\"", "\\n", "{", "}", "|", "^", "`"}
+	"\u00a0", "日本", "\U0001F600", "\ufffd", "\\u0026", "\\\"", "\\n", "{", "}", "|", "^", "`",
+	// not printable: private use (BMP and planes 15/16), tag characters, unassigned, noncharacters,
+	// format and separator characters, C1 controls
+	"\U000F0000", "\U00100000", "\U0010FFFF", "\U000E0001", "\U000E007F", "\ue000", "\U0003FFFE", "\ufffe", "\u200b", "\ufeff", "\u0085", "\u00ad", "\u2060", "\U0001D173"}
 
 var urlHostileC14 = []string{"\xff", "\xc3", "\x7f", "\x00", "\n", "\t", "%zz", "%", "%4", "#"}
 
